@@ -30,6 +30,7 @@ type Gen struct {
 	AimPct      int  // percent of commands found by searching the model for a rare outcome class (aim.go)
 	IOPct       int  // percent of mutating commands that meet an I/O error (short write + ENOSPC, EIO on read, EMFILE on open)
 	lastRes     *Cmd
+	queue       []Step // follow-ups of an earlier command, issued over the next steps
 	rewrote     bool
 	wantCompact bool
 	// avoid triggers of open known findings in most runs (see DESIGN 5)
@@ -295,6 +296,11 @@ func (g *Gen) next(m *Model) Step {
 }
 
 func (g *Gen) next2(m *Model) Step {
+	if len(g.queue) > 0 && g.R.Chance(2, 3) {
+		st := g.queue[0]
+		g.queue = g.queue[1:]
+		return st
+	}
 	if g.AimPct > 0 && g.R.Intn(100) < g.AimPct {
 		if st, ok := g.aim(m); ok {
 			return st
@@ -494,6 +500,18 @@ func (g *Gen) next2(m *Model) Step {
 		if len(edges) > 0 && g.R.Chance(3, 4) {
 			e := edges[g.R.Intn(len(edges))]
 			c.IDs = []string{e[0], e[1]}
+			if g.R.Chance(1, 4) {
+				// the ids the wrong way round: names an edge that does not exist
+				// and must leave the one that does alone - also later, when the
+				// item depended upon is finished and pruned
+				c.IDs = []string{e[1], e[0]}
+				if g.R.Chance(1, 2) {
+					g.queue = append(g.queue,
+						Step{Cmd: &Cmd{Op: "set", Mode: "json", ID: e[0], State: sp(g.oneOf("done", "canceled")), Agent: "a1@h"}},
+						Step{Cmd: &Cmd{Op: "prune", Yes: true}},
+						Step{Cmd: &Cmd{Op: "show", ID: e[1]}})
+				}
+			}
 		} else {
 			c.IDs = []string{g.ref(m, isTask, g.bad()), g.ref(m, isTask, g.bad())}
 		}
